@@ -162,8 +162,8 @@ PLAN['C11'] = {
     'technique': 'Verus total-mode proofs (every assert!/panic!/unwrap/index/overflow in alloc.rs, lru.rs, reg_tape.rs, simplify is an obligation); Kani full-domain totality harnesses for Interval operations; bounded native contract runner for the evaluators',
     'level_text': 'Proved: the compiler core (register allocation for N in 3..=255, simplify) cannot panic on well-formed tapes; Interval select/round operations return normally on ALL valid intervals including infinite bounds and the NaN interval (Kani, complete); add/sub/scale/neg are total on all valid intervals (Verus on the real text, under the float axioms: after the repair the obligation is monotonicity of one f32 operation, which CBMC cannot decide). The four VM evaluator loops cannot panic on tapes satisfying tape_ok: every slot/output/input index, every advance of the choice cursor and every range copy is an obligation of the Verus proofs of the real eval functions (unit vm), and the only failure is the documented argument error. The Shape-level wrappers ShapeTracingEval::eval_raw and ShapeBulkEval::eval_raw cannot panic either (unit shape: their unreachable!() arms are proved unreachable, whatever a reused evaluator object held).  The remaining Interval arithmetic and the JIT are bounded stand-ins.',
     'level_note': 'Trusted: Verus+Z3, Kani/CBMC. Not covered: stack exhaustion, allocation failure. Bounded only: JIT evaluators, Interval/Grad arithmetic other than the functions of unit interval on overflow grids, VarMap::check_bulk_arguments (stub in unit vm).',
-    'legs': [leg_verus('alloc'), leg_verus('simplify'), leg_verus('interval'), leg_verus('vm'), leg_verus('shape'), leg_verus('varmap'), leg_verus('jit'), leg_kani('leaf'), leg_bounded('interp_interval'), leg_bounded('total'), leg_bounded('jit_interval_valid')],
-    'cex': ['total', 'interp_interval', 'alloc_cex', 'simplify_sem'],
+    'legs': [leg_verus('alloc'), leg_verus('simplify'), leg_verus('interval'), leg_verus('vm'), leg_verus('shape'), leg_verus('varmap'), leg_verus('jit'), leg_kani('leaf'), leg_bounded('interp_interval'), leg_bounded('interval_sweep'), leg_bounded('total'), leg_bounded('jit_interval_valid')],
+    'cex': ['total', 'interp_interval', 'interval_sweep', 'alloc_cex', 'simplify_sem'],
     'explanation': 'Totality of the integer state machines is a corollary of their total-mode proofs; the genuine defect found here (Interval add/sub/scale panicking on NaN bounds) is repaired in /repo (fix: 081f714).',
     'assumptions': ['sqrt/square/recip/mul/div/trig totality of Interval: bounded leg only (CBMC models sqrtf/powi nondeterministically; one f32 division does not finish)'],
 }
@@ -174,8 +174,8 @@ PLAN['C03'] = {
     'technique': 'Kani full-domain harnesses for local interval enclosure of comparison/select operations; bounded native contract runner (interval interpreter vs reference point semantics) for arithmetic and transcendental operations',
     'level_text': 'Proved for all intervals and all member points (Kani, bit-precise, loop-free): min, max, and, or, not, compare, abs, neg enclose the point result, with the NaN-interval convention. Proved in Verus on the real text under the stated float axioms (monotone correctly-rounded + - *, NaN propagation, total order): Add, Sub, Mul<f32>, Neg are total on all valid intervals and enclose exactly (0 ulp). The interpreter dispatch is proved (unit vm: VmIntervalEval::eval applies, for every RegOp variant, the Interval method of that name to the right operands in the right order and writes the right slot). The remaining arithmetic and transcendental operations and the JIT are bounded stand-ins on a stated grid.',
     'level_note': 'Trusted: Kani/CBMC, Verus+Z3 with the float axioms of unit interval. Bounded only: mul, div, square, trig, atan2, rem_euclid, mix, rand; JIT; the composition of per-operation enclosure over a whole tape is mechanised for an abstract relation (unit vm, lemma_enc_run); that each real operation respects the real relation is established per operation by the other legs (known findings K1, K4 are where it does not). Out of scope: wgsl shader.',
-    'legs': [leg_kani('leaf'), leg_verus('interval'), leg_verus('vm'), leg_verus('shape'), leg_bounded('interp_interval'), leg_bounded('jit_interval'), leg_bounded('shape_transform')],
-    'cex': ['interp_interval'],
+    'legs': [leg_kani('leaf'), leg_verus('interval'), leg_verus('vm'), leg_verus('shape'), leg_bounded('interp_interval'), leg_bounded('interval_sweep'), leg_bounded('jit_interval'), leg_bounded('shape_transform')],
+    'cex': ['interp_interval', 'interval_sweep'],
     'explanation': 'The local obligation per opcode is exactly the observation the property names: a in A, b in B => op(a,b) in OP(A,B) unless NaN.',
     'assumptions': ['monotonicity of correctly rounded f32 arithmetic and libm functions is exercised on a grid only'],
 }
